@@ -44,23 +44,29 @@ def DisposalRespected (k : Nat) (tr : List (Ev α β)) : Prop :=
   ∀ p u, chronAt tr p = some (.inp (.sinkUp k u)) → u ≠ .pull →
     ∀ q d, p < q → chronAt tr q ≠ some (.out (.down k d))
 
+end Cb
+
+namespace Cb.Rd
+
+variable {St Loc α β : Type}
+
 /-! ## event classifiers -/
 
-def isGreetOut (k : Nat) : Ev α β → Bool
+def isGreetTo (k : Nat) : Ev α β → Bool
   | .out (.greet k') => k' == k
   | _ => false
 
-def isDownOut (k : Nat) : Ev α β → Bool
+def isDownTo (k : Nat) : Ev α β → Bool
   | .out (.down k' _) => k' == k
   | _ => false
 
-def isDisposeIn (k : Nat) : Ev α β → Bool
+def isDisposeOf (k : Nat) : Ev α β → Bool
   | .inp (.sinkUp k' .term) => k' == k
   | .inp (.sinkUp k' (.err _)) => k' == k
   | _ => false
 
-theorem isGreetOut_eq {k : Nat} {e : Ev α β} (h : isGreetOut k e = true) : e = .out (.greet k) := by
-  unfold isGreetOut at h
+theorem isGreetTo_eq {k : Nat} {e : Ev α β} (h : isGreetTo k e = true) : e = .out (.greet k) := by
+  unfold isGreetTo at h
   split at h
   · simp only [beq_iff_eq] at h; rw [h]
   · cases h
@@ -101,12 +107,12 @@ theorem C123.mono {ph ph' : Ph} (hv : ∀ v ∈ ph.viols, v ∈ ph'.viols) (h : 
 Every clause that depends on the operator behaving is guarded by the cleanliness of the monitor NOW (violations are never
 removed, so nothing has to be threaded backwards). -/
 structure RDp (k : Nat) (ph : Ph) (tr : List (Ev α β)) : Prop where
-  g1 : C1 ph → tr.countP (isGreetOut k) = if ph.sinkPh k = .idle ∨ ph.sinkPh k = .subscribed then 0 else 1
-  s1 : C1 ph → AllSuf (fun e t => isDownOut k e = true → 1 ≤ t.countP (isGreetOut k)) tr
+  g1 : C1 ph → tr.countP (isGreetTo k) = if ph.sinkPh k = .idle ∨ ph.sinkPh k = .subscribed then 0 else 1
+  s1 : C1 ph → AllSuf (fun e t => isDownTo k e = true → 1 ≤ t.countP (isGreetTo k)) tr
   g2 : C123 ph → ∀ e ∈ tr, isFinalOut k e = true → ph.sinkPh k = .doneBySrc
-  s2 : C123 ph → AllSuf (fun e t => isDownOut k e = true → ∀ e' ∈ t, isFinalOut k e' = false) tr
-  g3 : ∀ e ∈ tr, isDisposeIn k e = true → ph.sinkPh k = .doneBySelf
-  s3 : C3 ph → AllSuf (fun e t => isDownOut k e = true → ∀ e' ∈ t, isDisposeIn k e' = false) tr
+  s2 : C123 ph → AllSuf (fun e t => isDownTo k e = true → ∀ e' ∈ t, isFinalOut k e' = false) tr
+  g3 : ∀ e ∈ tr, isDisposeOf k e = true → ph.sinkPh k = .doneBySelf
+  s3 : C3 ph → AllSuf (fun e t => isDownTo k e = true → ∀ e' ∈ t, isDisposeOf k e' = false) tr
 
 theorem RDp.init (k : Nat) : RDp k ({} : Ph) ([] : List (Ev α β)) := by
   constructor <;> simp [AllSuf]
@@ -114,13 +120,13 @@ theorem RDp.init (k : Nat) : RDp k ({} : Ph) ([] : List (Ev α β)) := by
 /-- one event: the obligations are propositional facts about the old phase, the new phase and the event -/
 theorem RDp.step {k : Nat} {ph ph' : Ph} {tr : List (Ev α β)} (h : RDp k ph tr) (e : Ev α β)
     (hv : ∀ v ∈ ph.viols, v ∈ ph'.viols)
-    (o1 : C1 ph' → (if isGreetOut k e = true then 1 else 0) + (if ph.sinkPh k = .idle ∨ ph.sinkPh k = .subscribed then 0 else 1)
+    (o1 : C1 ph' → (if isGreetTo k e = true then 1 else 0) + (if ph.sinkPh k = .idle ∨ ph.sinkPh k = .subscribed then 0 else 1)
         = (if ph'.sinkPh k = .idle ∨ ph'.sinkPh k = .subscribed then 0 else 1))
-    (o1' : C1 ph' → isDownOut k e = true → ¬ (ph.sinkPh k = .idle ∨ ph.sinkPh k = .subscribed))
+    (o1' : C1 ph' → isDownTo k e = true → ¬ (ph.sinkPh k = .idle ∨ ph.sinkPh k = .subscribed))
     (o2 : C123 ph' → (isFinalOut k e = true ∨ ph.sinkPh k = .doneBySrc) → ph'.sinkPh k = .doneBySrc)
-    (o2' : C123 ph' → isDownOut k e = true → ph.sinkPh k ≠ .doneBySrc)
-    (o3 : (isDisposeIn k e = true ∨ ph.sinkPh k = .doneBySelf) → ph'.sinkPh k = .doneBySelf)
-    (o3' : C3 ph' → isDownOut k e = true → ph.sinkPh k ≠ .doneBySelf) :
+    (o2' : C123 ph' → isDownTo k e = true → ph.sinkPh k ≠ .doneBySrc)
+    (o3 : (isDisposeOf k e = true ∨ ph.sinkPh k = .doneBySelf) → ph'.sinkPh k = .doneBySelf)
+    (o3' : C3 ph' → isDownTo k e = true → ph.sinkPh k ≠ .doneBySelf) :
     RDp k ph' (e :: tr) := by
   refine ⟨?_, ?_, ?_, ?_, ?_, ?_⟩
   · intro c
@@ -145,21 +151,21 @@ theorem RDp.step {k : Nat} {ph ph' : Ph} {tr : List (Ev α β)} (h : RDp k ph tr
     · exact o3 (.inr (h.g3 e' he' hf))
   · intro c
     refine ⟨fun hd e' he' => ?_, h.s3 (c.mono hv)⟩
-    cases hf : isDisposeIn k e' with
+    cases hf : isDisposeOf k e' with
     | false => rfl
     | true => exact absurd (h.g3 e' he' hf) (o3' c hd)
 
 /-- an event that does not concern sink `k` -/
 theorem RDp.frame {k : Nat} {ph ph' : Ph} {tr : List (Ev α β)} (h : RDp k ph tr) (e : Ev α β)
     (hv : ∀ v ∈ ph.viols, v ∈ ph'.viols) (hph : ph'.sinkPh k = ph.sinkPh k)
-    (h1 : isGreetOut k e = false) (h2 : isFinalOut k e = false) (h3 : isDisposeIn k e = false) (h4 : isDownOut k e = false) :
+    (h1 : isGreetTo k e = false) (h2 : isFinalOut k e = false) (h3 : isDisposeOf k e = false) (h4 : isDownTo k e = false) :
     RDp k ph' (e :: tr) := by
   apply h.step e hv <;> simp [h1, h2, h3, h4, hph]
 
 theorem RDp.skip {k : Nat} {ph : Ph} {tr : List (Ev α β)} (h : RDp k ph tr) (e : Ev α β)
     (he : e = .retE ∨ e = .retO ∨ e = .panic) : RDp k ph (e :: tr) := by
   rcases he with rfl | rfl | rfl <;>
-    exact h.frame _ (fun _ hm => hm) rfl (by simp [isGreetOut]) (by simp [isFinalOut]) (by simp [isDisposeIn]) (by simp [isDownOut])
+    exact h.frame _ (fun _ hm => hm) rfl (by simp [isGreetTo]) (by simp [isFinalOut]) (by simp [isDisposeOf]) (by simp [isDownTo])
 
 /-- a legal call of the environment -/
 theorem RDp.inp {sh : Shape} {k : Nat} {ph : Ph} {c : Ctx β} {tr : List (Ev α β)} (h : RDp k ph tr) (i : In α)
@@ -169,49 +175,49 @@ theorem RDp.inp {sh : Shape} {k : Nat} {ph : Ph} {c : Ctx β} {tr : List (Ev α 
     have hk := legal_subscribe hl
     by_cases hkk : k = k'
     · subst hkk
-      apply h.step (ph' := ph.onIn (.subscribe k)) _ (fun _ hm => hm) <;> simp [Ph.onIn, isGreetOut, isFinalOut, isDisposeIn, isDownOut, hk]
-    · exact h.frame _ (fun _ hm => hm) (by simp [Ph.onIn, hkk]) (by simp [isGreetOut]) (by simp [isFinalOut])
-        (by simp [isDisposeIn]) (by simp [isDownOut])
+      apply h.step (ph' := ph.onIn (.subscribe k)) _ (fun _ hm => hm) <;> simp [Ph.onIn, isGreetTo, isFinalOut, isDisposeOf, isDownTo, hk]
+    · exact h.frame _ (fun _ hm => hm) (by simp [Ph.onIn, hkk]) (by simp [isGreetTo]) (by simp [isFinalOut])
+        (by simp [isDisposeOf]) (by simp [isDownTo])
   | sinkUp k' u =>
     have hk := legal_sinkUp hl
     cases u with
     | pull =>
-      exact h.frame _ (fun _ hm => hm) rfl (by simp [isGreetOut]) (by simp [isFinalOut]) (by simp [isDisposeIn]) (by simp [isDownOut])
+      exact h.frame _ (fun _ hm => hm) rfl (by simp [isGreetTo]) (by simp [isFinalOut]) (by simp [isDisposeOf]) (by simp [isDownTo])
     | term =>
       by_cases hkk : k = k'
       · subst hkk
-        apply h.step (ph' := ph.onIn (.sinkUp k .term)) _ (fun _ hm => hm) <;> simp [Ph.onIn, isGreetOut, isFinalOut, isDisposeIn, isDownOut, hk]
+        apply h.step (ph' := ph.onIn (.sinkUp k .term)) _ (fun _ hm => hm) <;> simp [Ph.onIn, isGreetTo, isFinalOut, isDisposeOf, isDownTo, hk]
       · have hkk' : ¬ k' = k := fun e => hkk e.symm
-        exact h.frame _ (fun _ hm => hm) (by simp [Ph.onIn, hkk]) (by simp [isGreetOut]) (by simp [isFinalOut])
-          (by simp [isDisposeIn, hkk']) (by simp [isDownOut])
+        exact h.frame _ (fun _ hm => hm) (by simp [Ph.onIn, hkk]) (by simp [isGreetTo]) (by simp [isFinalOut])
+          (by simp [isDisposeOf, hkk']) (by simp [isDownTo])
     | err x =>
       by_cases hkk : k = k'
       · subst hkk
-        apply h.step (ph' := ph.onIn (.sinkUp k (.err x))) _ (fun _ hm => hm) <;> simp [Ph.onIn, isGreetOut, isFinalOut, isDisposeIn, isDownOut, hk]
+        apply h.step (ph' := ph.onIn (.sinkUp k (.err x))) _ (fun _ hm => hm) <;> simp [Ph.onIn, isGreetTo, isFinalOut, isDisposeOf, isDownTo, hk]
       · have hkk' : ¬ k' = k := fun e => hkk e.symm
-        exact h.frame _ (fun _ hm => hm) (by simp [Ph.onIn, hkk]) (by simp [isGreetOut]) (by simp [isFinalOut])
-          (by simp [isDisposeIn, hkk']) (by simp [isDownOut])
+        exact h.frame _ (fun _ hm => hm) (by simp [Ph.onIn, hkk]) (by simp [isGreetTo]) (by simp [isFinalOut])
+          (by simp [isDisposeOf, hkk']) (by simp [isDownTo])
   | srcGreet j =>
-    exact h.frame _ (fun _ hm => hm) rfl (by simp [isGreetOut]) (by simp [isFinalOut]) (by simp [isDisposeIn]) (by simp [isDownOut])
+    exact h.frame _ (fun _ hm => hm) rfl (by simp [isGreetTo]) (by simp [isFinalOut]) (by simp [isDisposeOf]) (by simp [isDownTo])
   | srcDown j d =>
     cases d <;>
-      exact h.frame _ (fun _ hm => hm) rfl (by simp [isGreetOut]) (by simp [isFinalOut]) (by simp [isDisposeIn]) (by simp [isDownOut])
+      exact h.frame _ (fun _ hm => hm) rfl (by simp [isGreetTo]) (by simp [isFinalOut]) (by simp [isDisposeOf]) (by simp [isDownTo])
 
 theorem mem_onOut_viols {ph : Ph} (o : Out β) : ∀ v ∈ ph.viols, v ∈ (ph.onOut o).viols := by
   obtain ⟨l, hl⟩ := ph_onOut_viols_suffix ph o
   intro v hm; rw [hl]; exact List.mem_append_right _ hm
 
 /-- `onOut` does not touch the phase of sink `k` when the call is not to sink `k` -/
-theorem sinkPh_onOut_other {ph : Ph} {k : Nat} (o : Out β) (h1 : isGreetOut (α := α) k (.out o) = false)
-    (h4 : isDownOut (α := α) k (.out o) = false) : (ph.onOut o).sinkPh k = ph.sinkPh k := by
+theorem sinkPh_onOut_other {ph : Ph} {k : Nat} (o : Out β) (h1 : isGreetTo (α := α) k (.out o) = false)
+    (h4 : isDownTo (α := α) k (.out o) = false) : (ph.onOut o).sinkPh k = ph.sinkPh k := by
   cases o with
   | greet k' =>
-    have hkk : ¬ k = k' := by intro e; subst e; simp [isGreetOut] at h1
+    have hkk : ¬ k = k' := by intro e; subst e; simp [isGreetTo] at h1
     simp only [Ph.onOut]; split
     · simp [hkk]
     · rfl
   | down k' d =>
-    have hkk : ¬ k = k' := by intro e; subst e; simp [isDownOut] at h4
+    have hkk : ¬ k = k' := by intro e; subst e; simp [isDownTo] at h4
     simp only [Ph.onOut]; split
     · split
       · simp [hkk]
@@ -227,40 +233,40 @@ theorem sinkPh_onOut_other {ph : Ph} {k : Nat} (o : Out β) (h1 : isGreetOut (α
 /-- a call made by the operator -/
 theorem RDp.out {k : Nat} {ph : Ph} {tr : List (Ev α β)} (h : RDp k ph tr) (o : Out β) :
     RDp k (ph.onOut o) (.out o :: tr) := by
-  by_cases hg : isGreetOut (α := α) k (.out o) = true
+  by_cases hg : isGreetTo (α := α) k (.out o) = true
   · -- greeting of sink `k`
     cases o with
     | greet k' =>
-      have hkk : k' = k := by simpa [isGreetOut] using hg
+      have hkk : k' = k := by simpa [isGreetTo] using hg
       subst hkk
       by_cases hp : ph.sinkPh k' = .subscribed
-      · apply h.step _ (mem_onOut_viols _) <;> simp [Ph.onOut, isGreetOut, isFinalOut, isDisposeIn, isDownOut, hp]
+      · apply h.step _ (mem_onOut_viols _) <;> simp [Ph.onOut, isGreetTo, isFinalOut, isDisposeOf, isDownTo, hp]
       · apply h.step _ (mem_onOut_viols _) <;>
-          simp [Ph.onOut, isGreetOut, isFinalOut, isDisposeIn, isDownOut, hp, C1_flag, C123_flag, Viol.prop]
-    | _ => simp [isGreetOut] at hg
-  · by_cases hd : isDownOut (α := α) k (.out o) = true
+          simp [Ph.onOut, isGreetTo, isFinalOut, isDisposeOf, isDownTo, hp, C1_flag, C123_flag, Viol.prop]
+    | _ => simp [isGreetTo] at hg
+  · by_cases hd : isDownTo (α := α) k (.out o) = true
     · -- delivery to sink `k`
       cases o with
       | down k' d =>
-        have hkk : k' = k := by simpa [isDownOut] using hd
+        have hkk : k' = k := by simpa [isDownTo] using hd
         subst hkk
         cases hp : ph.sinkPh k' with
         | live =>
           cases d <;>
             (apply h.step _ (mem_onOut_viols _) <;>
-              simp [Ph.onOut, isGreetOut, isFinalOut, isDisposeIn, isDownOut, hp, isFinal])
+              simp [Ph.onOut, isGreetTo, isFinalOut, isDisposeOf, isDownTo, hp, isFinal])
         | idle | subscribed | doneBySrc | doneBySelf =>
           cases d <;>
             (apply h.step _ (mem_onOut_viols _) <;>
-              simp [Ph.onOut, isGreetOut, isFinalOut, isDisposeIn, isDownOut, hp, C1_flag, C3_flag, C123_flag, Viol.prop])
-      | _ => simp [isDownOut] at hd
+              simp [Ph.onOut, isGreetTo, isFinalOut, isDisposeOf, isDownTo, hp, C1_flag, C3_flag, C123_flag, Viol.prop])
+      | _ => simp [isDownTo] at hd
     · -- anything else
-      have hg' : isGreetOut (α := α) k (.out o) = false := by simpa using hg
-      have hd' : isDownOut (α := α) k (.out o) = false := by simpa using hd
-      refine h.frame _ (mem_onOut_viols _) (sinkPh_onOut_other (α := α) o hg' hd') hg' ?_ (by simp [isDisposeIn]) hd'
+      have hg' : isGreetTo (α := α) k (.out o) = false := by simpa using hg
+      have hd' : isDownTo (α := α) k (.out o) = false := by simpa using hd
+      refine h.frame _ (mem_onOut_viols _) (sinkPh_onOut_other (α := α) o hg' hd') hg' ?_ (by simp [isDisposeOf]) hd'
       cases o with
       | down k' d =>
-        have hkk : ¬ k' = k := by simpa [isDownOut] using hd'
+        have hkk : ¬ k' = k := by simpa [isDownTo] using hd'
         cases d <;> simp [isFinalOut, hkk]
       | _ => simp [isFinalOut]
 
@@ -360,6 +366,37 @@ theorem two_le_countP {tr : List (Ev α β)} {f : Ev α β → Bool} {p q : Nat}
   rw [List.countP_append, List.countP_cons, if_pos hb]
   omega
 
+/-- replay of a schedule: `none` = one operator micro-step, `some m` = environment move `m` -/
+def replay (M : Machine St Loc α β) : Sys St Loc α β → List (Option (Move α)) → Option (Sys St Loc α β)
+  | s, [] => some s
+  | s, none :: r => match opStep M s with
+    | some s' => replay M s' r
+    | none => none
+  | s, some m :: r => match envMove M s m with
+    | some s' => replay M s' r
+    | none => none
+
+theorem reach_replay {M : Machine St Loc α β} : ∀ (sc : List (Option (Move α))) {a b : Sys St Loc α β},
+    SReach M a → replay M a sc = some b → SReach M b
+  | [], a, b, ha, h => by simp only [replay, Option.some.injEq] at h; exact h ▸ ha
+  | none :: r, a, b, ha, h => by
+    simp only [replay] at h
+    cases ho : opStep M a with
+    | none => simp [ho] at h
+    | some a' => rw [ho] at h; exact reach_replay r (.step ha (.op ho)) h
+  | some m :: r, a, b, ha, h => by
+    simp only [replay] at h
+    cases ho : envMove M a m with
+    | none => simp [ho] at h
+    | some a' => rw [ho] at h; exact reach_replay r (.step ha (.env ((envMove_iff M m a a').1 ho) trivial)) h
+
+end Cb.Rd
+
+namespace Cb
+open Rd
+
+variable {St Loc α β : Type}
+
 /-! ## the theorems -/
 
 variable {M : Machine St Loc α β} {R : Restr St Loc α β} {s : Sys St Loc α β}
@@ -368,21 +405,21 @@ variable {M : Machine St Loc α β} {R : Restr St Loc α β} {s : Sys St Loc α 
 theorem greetFirstOnce_of_clean (hs : SReachR M R s) (hv : ∀ v ∈ s.g.ph.viols, v.prop ≠ 1) (k : Nat) :
     GreetFirstOnce k s.tr := by
   have inv := RDp.of_reach hs k
-  have hcount : s.tr.countP (isGreetOut k) ≤ 1 := by rw [inv.g1 hv]; split <;> simp
+  have hcount : s.tr.countP (isGreetTo k) ≤ 1 := by rw [inv.g1 hv]; split <;> simp
   have hsuf := inv.s1 hv
   refine ⟨fun p q hp hq => ?_, fun p d hp => ?_⟩
   · rcases Nat.lt_trichotomy p q with hlt | heq | hgt
-    · have := two_le_countP (f := isGreetOut k) hlt hp hq (by simp [isGreetOut]) (by simp [isGreetOut]); omega
+    · have := two_le_countP (f := isGreetTo k) hlt hp hq (by simp [isGreetTo]) (by simp [isGreetTo]); omega
     · exact heq
-    · have := two_le_countP (f := isGreetOut k) hgt hq hp (by simp [isGreetOut]) (by simp [isGreetOut]); omega
+    · have := two_le_countP (f := isGreetTo k) hgt hq hp (by simp [isGreetTo]) (by simp [isGreetTo]); omega
   · obtain ⟨l, t, htr, hlen⟩ := chronAt_split hp
     rw [htr] at hsuf
-    have h1 : 0 < t.countP (isGreetOut k) := hsuf.at (by simp [isDownOut])
+    have h1 : 0 < t.countP (isGreetTo k) := hsuf.at (by simp [isDownTo])
     obtain ⟨e, he, hg⟩ := List.countP_pos_iff.1 h1
     obtain ⟨q, hq, hqe⟩ := chronAt_of_mem he
     refine ⟨q, by omega, ?_⟩
     rw [htr, chronAt_append_lt l (t := _ :: t) (by simp; omega)]
-    rw [chronAt_cons_lt _ hq, ← isGreetOut_eq hg]
+    rw [chronAt_cons_lt _ hq, ← isGreetTo_eq hg]
     exact hqe
 
 /-- C02, readable — CORRECTED hypothesis: no violation of props 1, 2, 3 recorded ⇒ nothing is delivered to a sink after its
@@ -393,7 +430,7 @@ theorem terminalFinal_of_clean (hs : SReachR M R s) (hv : ∀ v ∈ s.g.ph.viols
   intro p d hp hfin q d' hpq hq
   obtain ⟨l, t, htr, hlen⟩ := chronAt_split hq
   rw [htr] at hsuf
-  have hno := hsuf.at (by simp [isDownOut])
+  have hno := hsuf.at (by simp [isDownTo])
   rw [htr, chronAt_append_lt l (t := _ :: t) (by simp; omega)] at hp
   rw [chronAt_cons_lt _ (by omega)] at hp
   have := hno _ (chronAt_mem hp)
@@ -406,14 +443,75 @@ theorem disposalRespected_of_clean (hs : SReachR M R s) (hv : ∀ v ∈ s.g.ph.v
   intro p u hp hu q d hpq hq
   obtain ⟨l, t, htr, hlen⟩ := chronAt_split hq
   rw [htr] at hsuf
-  have hno := hsuf.at (by simp [isDownOut])
+  have hno := hsuf.at (by simp [isDownTo])
   rw [htr, chronAt_append_lt l (t := _ :: t) (by simp; omega)] at hp
   rw [chronAt_cons_lt _ (by omega)] at hp
   have := hno _ (chronAt_mem hp)
-  cases u <;> simp [isDisposeIn] at this hu
+  cases u <;> simp [isDisposeOf] at this hu
+
+/-! ## `TerminalFinal` needs C01 and C03: machine-checked counterexamples to the statement with "no prop-2 violation" alone
+
+The monitor files a delivery under the property of the phase the sink is in.  A terminal sent to a sink that is not greeted
+yet is a prop-1 violation and leaves the phase `subscribed`; after the greeting, a later `Data` is perfectly legal for the
+monitor.  A terminal sent to a sink that has disposed is a prop-3 violation and so is every later delivery.  In both traces
+something is delivered after a terminal although no prop-2 violation is recorded. -/
+
+/-- on `subscribe`: Terminate, then the greeting, then Data -/
+def cexM1 : Machine Unit Nat Unit Unit where
+  shape := {}
+  init := ()
+  enter := fun _ => 0
+  step := fun _ l => match l with
+    | 0 => .call (.down 0 .term) () 1
+    | 1 => .call (.greet 0) () 2
+    | 2 => .call (.down 0 (.data ())) () 3
+    | _ => .ret
+
+def cexSched1 : List (Option (Move Unit)) := [some (.call (.subscribe 0)), none, some .ret, none, some .ret, none]
+def cexS1 : Sys Unit Nat Unit Unit := (replay cexM1 (Sys.init cexM1) cexSched1).getD (Sys.init cexM1)
+
+/-- only prop-1 violations recorded, yet `Data` follows `Terminate` -/
+theorem terminalFinal_needs_C01 :
+    SReach cexM1 cexS1 ∧ (∀ v ∈ cexS1.g.ph.viols, v.prop ≠ 2 ∧ v.prop ≠ 3) ∧ ¬ TerminalFinal 0 cexS1.tr := by
+  have htr : cexS1.tr = [.out (.down 0 (.data ())), .retE, .out (.greet 0), .retE, .out (.down 0 .term), .inp (.subscribe 0)] := rfl
+  have hvi : cexS1.g.ph.viols = [.ungreeted 0] := rfl
+  refine ⟨reach_replay cexSched1 .init (b := cexS1) rfl, ?_, fun h => ?_⟩
+  · rw [hvi]; intro v hm; simp only [List.mem_singleton] at hm; subst hm; simp [Viol.prop]
+  · rw [htr] at h
+    exact h 1 .term rfl rfl 5 (.data ()) (by omega) rfl
+
+/-- on `subscribe`: the greeting; on anything the sink sends: Terminate, then Data -/
+def cexM3 : Machine Unit Nat Unit Unit where
+  shape := {}
+  init := ()
+  enter := fun i => match i with
+    | .subscribe _ => 0
+    | _ => 10
+  step := fun _ l => match l with
+    | 0 => .call (.greet 0) () 1
+    | 10 => .call (.down 0 .term) () 11
+    | 11 => .call (.down 0 (.data ())) () 12
+    | _ => .ret
+
+def cexSched3 : List (Option (Move Unit)) :=
+  [some (.call (.subscribe 0)), none, some (.call (.sinkUp 0 .term)), none, some .ret, none]
+def cexS3 : Sys Unit Nat Unit Unit := (replay cexM3 (Sys.init cexM3) cexSched3).getD (Sys.init cexM3)
+
+/-- only prop-3 violations recorded, yet `Data` follows `Terminate` -/
+theorem terminalFinal_needs_C03 :
+    SReach cexM3 cexS3 ∧ (∀ v ∈ cexS3.g.ph.viols, v.prop ≠ 1 ∧ v.prop ≠ 2) ∧ ¬ TerminalFinal 0 cexS3.tr := by
+  have htr : cexS3.tr = [.out (.down 0 (.data ())), .retE, .out (.down 0 .term), .inp (.sinkUp 0 .term), .out (.greet 0),
+      .inp (.subscribe 0)] := rfl
+  have hvi : cexS3.g.ph.viols = [.afterDispose 0, .afterDispose 0] := rfl
+  refine ⟨reach_replay cexSched3 .init (b := cexS3) rfl, ?_, fun h => ?_⟩
+  · rw [hvi]; intro v hm; simp only [List.mem_cons, List.not_mem_nil, or_false, or_self] at hm; subst hm; simp [Viol.prop]
+  · rw [htr] at h
+    exact h 3 .term rfl rfl 5 (.data ()) (by omega) rfl
 
 end Cb
 
 #print axioms Cb.greetFirstOnce_of_clean
 #print axioms Cb.terminalFinal_of_clean
 #print axioms Cb.disposalRespected_of_clean
+#print axioms Cb.terminalFinal_needs_C01
+#print axioms Cb.terminalFinal_needs_C03
